@@ -275,5 +275,260 @@ theorem enc_check_complete (hL : P.Lawful) (layout : Nat) (hl : layout = 1 ∨ l
   simp only [specEncMsg] at this ⊢
   rw [this]
 
+/-! ### soundness of the cryptographic layer: accepted ⇒ it IS the reference sender's output -/
+
+/-- `open` accepts only what `seal` produces: with the key and nonce fixed, the
+    plaintext determines the box.  A functional fact of NaCl secretbox (the
+    cipher is a bijection on the plaintext, the tag a function of the
+    ciphertext) — NOT a security assumption.  `Toy.prims` satisfies it
+    (`toy_openCanonical`). -/
+def OpenCanonical (P : Prims) : Prop := ∀ k n c m, P.sbOpen k n c = some m → c = P.sbSeal k n m
+
+/-- the recipients as the decoder saw them: its secret keys, hidden iff the key id is nil -/
+def recipsOf (secrets : List Bytes) (recvs : List EncRecv) : List (Bytes × Bool) :=
+  List.zipWith (fun sk r => (sk, r.kid.isNone)) secrets recvs
+
+/-- the chunk plan as the decoder saw it -/
+def planOf (chunks : List Bytes) (pkts : List EncPkt) : List (Bytes × Bool) :=
+  List.zipWith (fun c p => (c, p.final)) chunks pkts
+
+theorem encRecvKey_sound (hL : P.Lawful) (hC : OpenCanonical P) (layout : Nat) (hl : layout = 1 ∨ layout = 2)
+    (ephSec : Bytes) (i : Nat) (r : EncRecv) (sk k : Bytes)
+    (h : encRecvKey P layout (P.boxPub ephSec) i r sk = .ok k) :
+    r = specEncRecv P layout ephSec k i ⟨P.boxPub sk, r.kid.isNone⟩ ∧ k.length = 32 := by
+  unfold encRecvKey at h
+  split at h
+  · cases h
+  · rename_i hkid
+    have hn : (if (layout : Int) = 1 then sNoncePayloadKeyV1 else sNonceRecip i) =
+        (if layout = 1 then sNoncePayloadKeyV1 else sNonceRecip i) := by
+      rcases hl with rfl | rfl <;> rfl
+    rw [hn] at h
+    split at h
+    · cases h
+    · rename_i k' hk'
+      split at h
+      · rename_i hlen
+        injection h with h
+        subst h
+        refine ⟨?_, hlen⟩
+        unfold Prims.unbox at hk'
+        have hb := hC _ _ _ _ hk'
+        rw [hL.dh_comm sk ephSec] at hb
+        obtain ⟨kid, box⟩ := r
+        simp only at hb hkid
+        subst hb
+        unfold specEncRecv Prims.box
+        cases kid with
+        | none => simp
+        | some x =>
+          simp only [Option.isSome_some, true_and, ne_eq, Decidable.not_not] at hkid
+          simp [hkid]
+      · cases h
+
+theorem encRecvKeys_sound (hL : P.Lawful) (hC : OpenCanonical P) (layout : Nat) (hl : layout = 1 ∨ layout = 2)
+    (ephSec pk : Bytes) : ∀ (recvs : List EncRecv) (secrets : List Bytes) (k : Nat) (ks : List Bytes),
+    encRecvKeys P layout (P.boxPub ephSec) k recvs secrets = .ok ks → (∀ x ∈ ks, x = pk) →
+    recvs = ((rsOf P (recipsOf secrets recvs)).zipIdx k).map (fun (r, i) => specEncRecv P layout ephSec pk i r) ∧
+      (recipsOf secrets recvs).map (·.1) = secrets ∧ ks.length = recvs.length ∧ (∀ x ∈ ks, x.length = 32) := by
+  intro recvs
+  induction recvs with
+  | nil =>
+    intro secrets k ks h _
+    cases secrets with
+    | nil => simp [encRecvKeys] at h; subst h; simp [recipsOf, rsOf]
+    | cons _ _ => simp [encRecvKeys] at h
+  | cons r rs ih =>
+    intro secrets k ks h hall
+    cases secrets with
+    | nil => simp [encRecvKeys] at h
+    | cons sk sks =>
+      rw [encRecvKeys] at h
+      split at h
+      · cases h
+      · rename_i k1 hk1
+        split at h
+        · cases h
+        · rename_i ks1 hks1
+          injection h with h
+          subst h
+          have hk1pk : k1 = pk := hall k1 (by simp)
+          subst hk1pk
+          obtain ⟨e1, e2⟩ := encRecvKey_sound P hL hC layout hl ephSec k r sk k1 hk1
+          obtain ⟨i1, i2, i3, i4⟩ := ih sks (k + 1) ks1 hks1 (fun x hx => hall x (by simp [hx]))
+          refine ⟨?_, ?_, ?_, ?_⟩
+          · simp only [recipsOf, List.zipWith_cons_cons, rsOf, List.map_cons, List.zipIdx_cons]
+            simp only [recipsOf, rsOf] at i1
+            rw [← i1, ← e1]
+          · simp only [recipsOf, List.zipWith_cons_cons, List.map_cons]
+            simp only [recipsOf] at i2
+            rw [i2]
+          · simp [i3]
+          · intro x hx
+            rcases List.mem_cons.1 hx with rfl | hx
+            · exact e2
+            · exact i4 x hx
+
+theorem encPkt_sound (hC : OpenCanonical P) (layout : Nat) (hl : layout = 1 ∨ layout = 2) (pk hh : Bytes)
+    (mks : List Bytes) (i : Nat) (last : Bool) (p : EncPkt) (c : Bytes)
+    (hfin : layout = 1 → p.final = false)
+    (h : encPkt P layout pk hh mks i last p = .ok c) :
+    p = specEncPkt P layout pk hh mks i c p.final ∧ chunkRule layout i last p.final c = .ok () := by
+  unfold encPkt at h
+  split at h
+  · cases h
+  · rename_i ha
+    simp only [ne_eq, Decidable.not_not] at ha
+    split at h
+    · cases h
+    · rename_i chunk hch
+      split at h
+      · cases h
+      · rename_i u hu
+        injection h with h
+        subst h
+        refine ⟨?_, by rw [hu]⟩
+        have hct := hC _ _ _ _ hch
+        obtain ⟨fl, auths, ct⟩ := p
+        simp only at ha hct hfin
+        subst hct
+        rw [ha]
+        unfold specEncPkt encMacInput
+        rcases hl with rfl | rfl
+        · simp [hfin rfl]
+        · simp
+
+theorem encPkts_sound (hC : OpenCanonical P) (layout : Nat) (hl : layout = 1 ∨ layout = 2) (pk hh : Bytes)
+    (mks : List Bytes) : ∀ (pkts : List EncPkt) (k : Nat) (chunks : List Bytes),
+    (∀ p ∈ pkts, layout = 1 → p.final = false) →
+    encPkts P layout pk hh mks k pkts = .ok chunks →
+    pkts = ((planOf chunks pkts).zipIdx k).map (fun (cf, i) => specEncPkt P layout pk hh mks i cf.1 cf.2) ∧
+      PlanOK layout k (planOf chunks pkts) ∧ (planOf chunks pkts).map (·.1) = chunks ∧
+      chunks.length = pkts.length := by
+  intro pkts
+  induction pkts with
+  | nil =>
+    intro k chunks _ h
+    simp [encPkts] at h
+    subst h
+    simp [planOf, PlanOK]
+  | cons p ps ih =>
+    intro k chunks hfin h
+    rw [encPkts] at h
+    split at h
+    · cases h
+    · rename_i c hc
+      split at h
+      · cases h
+      · rename_i cs hcs
+        injection h with h
+        subst h
+        obtain ⟨e1, e2⟩ := encPkt_sound P hC layout hl pk hh mks k ps.isEmpty p c (hfin p (by simp)) hc
+        obtain ⟨i1, i2, i3, i4⟩ := ih (k + 1) cs (fun q hq => hfin q (by simp [hq])) hcs
+        have hemp : (planOf cs ps = []) ↔ ps = [] := by
+          cases ps with
+          | nil => simp [planOf]
+          | cons q qs =>
+            cases cs with
+            | nil => simp at i4
+            | cons _ _ => simp [planOf]
+        refine ⟨?_, ?_, ?_, by simp [i4]⟩
+        · simp only [planOf, List.zipWith_cons_cons, List.zipIdx_cons, List.map_cons]
+          simp only [planOf] at i1
+          rw [← i1, ← e1]
+        · simp only [planOf, List.zipWith_cons_cons, PlanOK]
+          rw [chunkRule_ok_iff] at e2
+          obtain ⟨r1, r2⟩ := e2
+          refine ⟨r1, ?_, i2⟩
+          have hemp' := hemp
+          simp only [planOf] at hemp'
+          rcases hl with rfl | rfl
+          · simp only [show (((1:Nat):Int) = 1) by decide, if_true] at r2 ⊢
+            rw [r2, hemp']; cases ps <;> simp
+          · simp only [show ¬ (((2:Nat):Int) = 1) by decide, show ¬ ((2:Nat) = 1) by decide, if_false] at r2 ⊢
+            obtain ⟨r2a, r2b⟩ := r2
+            rw [hemp']
+            constructor
+            · rw [r2a]; cases ps <;> simp
+            · intro hc0
+              obtain ⟨a, b⟩ := r2b hc0
+              exact ⟨a, List.isEmpty_iff.1 b⟩
+        · simp only [planOf, List.zipWith_cons_cons, List.map_cons]
+          simp only [planOf] at i3
+          rw [i3]
+
+/-- **soundness of the cryptographic layer, encryption**: if the decoder accepts
+    wire fields `m` (as `EncMsg.parse` returns them) with the recipients'
+    `secrets`, then `m` is — field for field — what the reference sender builds
+    from the DECODED payload key, sender, recipients (hidden iff the key id is
+    nil) and chunks, and these obey the chunk rules.  `ephSec`, `senderSec`: the
+    secrets behind the two public keys the message carries (the decoder never
+    sees them; for an anonymous sender `senderSec = ephSec`). -/
+theorem enc_check_sound (hL : P.Lawful) (hC : OpenCanonical P) (m : EncMsg) (secrets : List Bytes) (o : EncOpened)
+    (layout : Nat) (hl : layout = 1 ∨ layout = 2) (hm : m.major = layout)
+    (hfin : ∀ p ∈ m.pkts, m.major = 1 → p.final = false)
+    (h : m.check P secrets = .ok o)
+    (ephSec senderSec : Bytes) (he : m.eph = P.boxPub ephSec) (hs : o.senderPub = P.boxPub senderSec) :
+    m = specEncMsg P layout (some senderSec) (rsOf P (recipsOf secrets m.recvs)) ephSec o.payloadKey
+          (planOf o.chunks m.pkts) ∧
+      PlanOK layout 0 (planOf o.chunks m.pkts) ∧ planOf o.chunks m.pkts ≠ [] ∧
+      (planOf o.chunks m.pkts).map (·.1) = o.chunks ∧
+      (recipsOf secrets m.recvs).map (·.1) = secrets ∧ secrets ≠ [] ∧ o.payloadKey.length = 32 := by
+  obtain ⟨major, eph, ssb, recvs, pkts⟩ := m
+  simp only at hm he hfin
+  subst hm he
+  unfold EncMsg.check at h
+  simp only at h
+  split at h
+  · cases h
+  · cases h
+  · rename_i pk rest hks
+    split at h
+    · cases h
+    · rename_i hall
+      simp only [Decidable.not_not] at hall
+      split at h
+      · cases h
+      · rename_i senderPub hsp
+        split at h
+        · cases h
+        · rename_i hpk0
+          split at h
+          · cases h
+          · rename_i chunks hch
+            injection h with h
+            subst h
+            simp only at hs ⊢
+            subst hs
+            obtain ⟨r1, r2, r3, r4⟩ := encRecvKeys_sound P hL hC layout hl ephSec pk recvs secrets 0 (pk :: rest) hks
+              (by intro x hx; rcases List.mem_cons.1 hx with rfl | hx; rfl; exact hall x hx)
+            have hssb := hC _ _ _ _ hsp
+            -- the header part
+            have hhdr : (⟨(layout : Int), P.boxPub ephSec, ssb, recvs, pkts⟩ : EncMsg).headerBytes =
+                (specEncHdr P layout (some senderSec) (rsOf P (recipsOf secrets recvs)) ephSec pk).headerBytes := by
+              unfold EncMsg.headerBytes EncMsg.fields specEncHdr
+              simp only [Option.getD_some]
+              rw [← r1, ← hssb]
+            rw [hhdr] at hch
+            unfold macKeys at hch
+            rw [← r2, macKeys_spec P hL layout hl] at hch
+            rw [r2] at hch
+            obtain ⟨p1, p2, p3, p4⟩ := encPkts_sound P hC layout hl pk _ _ pkts 0 chunks
+              (fun p hp h1 => hfin p hp (by rw [h1]; rfl)) hch
+            refine ⟨?_, p2, ?_, p3, r2, ?_, r4 pk (by simp)⟩
+            · unfold specEncMsg
+              simp only [specEncHdr, Option.getD_some]
+              simp only [specEncHdr, Option.getD_some] at p1
+              rw [← p1, ← r1, ← hssb]
+            · intro hnil
+              rw [hnil] at p1
+              simp at p1
+              exact hpk0 p1
+            · intro hnil
+              subst hnil
+              cases recvs with
+              | nil => simp at r3
+              | cons _ _ => simp [encRecvKeys] at hks
+
 end
 end Saltpack.Proofs.SDW
